@@ -2,6 +2,7 @@ package main
 
 import (
 	"bytes"
+	"crypto/sha1"
 	"context"
 	"fmt"
 	"os"
@@ -232,7 +233,10 @@ var solverCmds = []struct {
 
 // solve races the solvers on one query. First definite answer wins.
 func solve(q *Query, dir string, timeoutS int, want []string) SolveResult {
-	file := filepath.Join(dir, sanitize(q.Name)+".smt2")
+	// the sanitised name is truncated: a hash of the full name and text keeps files of different
+	// obligations apart (they are solved in parallel)
+	h := sha1.Sum([]byte(q.Name + "\x00" + q.Text))
+	file := filepath.Join(dir, fmt.Sprintf("%s.%x.smt2", sanitize(q.Name), h[:6]))
 	_ = os.WriteFile(file, []byte(q.Text), 0o644)
 	type res struct {
 		solver  string
